@@ -85,6 +85,22 @@ CLAIMS = {
         technique="static analysis: typestate/shape rules over guard facts and def-use of Solver.solve; class-hierarchy resolution (ast)",
         ref="DESIGN.md §3 C02",
     ),
+    "C20": dict(
+        text=(
+            "All clauses of C20 are finite and are enumerated exhaustively by abstract evaluation of the configuration, "
+            "dispatch and gating code: (CFG-3) _detect_backend on all 16 subsets of importable modules; (CFG-6) _strtobool "
+            "accepts exactly true/1/false/0 up to case, ValueError otherwise; (CFG-5) Config() for ~1000 combinations of "
+            "CSPUZ_DEFAULT_BACKEND, both primitive flags (unset/valid/invalid), importable-module sets and infer_from_env: "
+            "default backend, both defaults on exactly for supporting backends, strict overrides; (CFG-1) _get_backend: "
+            "explicit argument wins, None reads config.default_backend at call time, all six names resolve to their classes, "
+            "unknown names raise ValueError, find_answer/solve pass their own argument; (CFG-4) every graph function with a "
+            "native route emits native operators exactly when argument-else-config (set after import) says so, never for "
+            "acyclic connectivity, division variant governed by its own flag, path form raises when off."
+        ),
+        note="Trusted: the abstract evaluator; importability modelled as ImportError from the import statement.",
+        technique="static analysis: exhaustive finite-domain abstract evaluation of configuration/dispatch/gating code (ast)",
+        ref="DESIGN.md §3 C20",
+    ),
 }
 
 NOT_APPLICABLE = {
